@@ -358,6 +358,11 @@ int main(int argc, char** argv)
   else
   {
     assert(task == TASK_APPLY);
+    if (!outputMatrixFileName)
+    {
+      fputs("Error: No output file specified.\n\n", stderr);
+      return printUsage(argv[0]);
+    }
     error = complementMatrix(inputMatrixFileName, inputFormat, outputFormat, complementRow, complementColumn,
       outputMatrixFileName);
   }
